@@ -21,11 +21,44 @@ UNITS = [
          replace=['Parameters_enter_subsection', 'Parameters_leave_subsection', 'Parameters_get_string', 'Parameters_get_double'],
          defines={'WB_VEC_CAP': 2}, expect_fail=['REACHABILITY-GUARD']),
 ]
+PFN = 'Features_Plume_parse_entries'
+_MODEL_LOOP = lambda fld: dict(contract='__CPROVER_assigns(i, wb_thrown)\n__CPROVER_loop_invariant(i <= this_->%s.n && !wb_thrown)\n__CPROVER_decreases(this_->%s.n - i)' % (fld, fld))
+_KINDS = ['Temperature', 'Composition', 'Grains', 'Velocity']
+UNITS.append(dict(
+    name='plume_parse', enforce=PFN, contracts='c12_plume_parse.c', harness='h_plume_parse',
+    targets=[dict(tu='source/world_builder/features/plume.cc', qual='WorldBuilder::Features::Plume::parse_entries')],
+    stub_prefixes=['Parameters_'],
+    stub=['Features_Interface_get_coordinates', 'Features_FeatureUtilities_add_vector_unique', 'CoordinateSystems_Interface_natural_coordinate_system'] +
+         ['Features_PlumeModels_%s_Interface_parse_entries' % k for k in _KINDS],
+    replace=['Features_Interface_get_coordinates', 'Features_FeatureUtilities_add_vector_unique', 'CoordinateSystems_Interface_natural_coordinate_system',
+             'Parameters_get__string__ret_basic_string_char', 'Parameters_get__string__ret_double', 'Parameters_get_vector__string__ret_double',
+             ] +
+            ['Parameters_get_unique_pointers__ret_Features_PlumeModels_%s_Interface' % k for k in _KINDS],
+    outline_fp='all', defines={'WB_VEC_CAP': 2, 'WB_CAP_vec_double': 3}, defines_thorough={'WB_CAP_vec_double': 8, 'WB_CAP_vec_Point2': 8},
+    expect_fail=['REACHABILITY-GUARD'], object_bits=12,
+    loops={
+        # the ascending-order loop (debug-only body): terminates for every list length
+        (PFN, 1): dict(contract='__CPROVER_assigns(i)\n__CPROVER_loop_invariant(i == 0 || (unsigned long)i < this_->depths.n)\n__CPROVER_decreases(this_->depths.n - (unsigned long)i)'),
+        (PFN, 2): dict(contract='__CPROVER_assigns(wb_i2, wb_r2->data)\n__CPROVER_loop_invariant(wb_i2 <= wb_r2->n && wb_r2 == &this_->rotation_angles)\n__CPROVER_decreases(wb_r2->n - wb_i2)'),
+        (PFN, 3): dict(contract='__CPROVER_assigns(wb_i3, wb_r3->data)\n__CPROVER_loop_invariant(wb_i3 <= wb_r3->n && wb_r3 == &this_->semi_major_axis_lengths)\n__CPROVER_decreases(wb_r3->n - wb_i3)'),
+        (PFN, 4): _MODEL_LOOP('temperature_models'), (PFN, 5): _MODEL_LOOP('composition_models'),
+        (PFN, 6): _MODEL_LOOP('grains_models'), (PFN, 7): _MODEL_LOOP('velocity_models')}))
 
 SPH = '{"version":"1.1", "coordinate system":{"model":"spherical", "depth method":"%s"}, "features":[]}'
 
 
-def native_oracle(witness, work, search_seed=None):
+PLUME = dict(model="plume", name="P", **{"min depth": 1e3, "max depth": 150e3, "coordinates": [[50e3, 50e3], [50e3, 50e3], [50e3, 50e3]],
+             "cross section depths": [40e3, 75e3, 150e3], "semi-major axis": [50e3, 35e3, 40e3], "eccentricity": [0.5, 0.5, 0.5],
+             "rotation angles": [345, 355, 5], "composition models": [{"model": "uniform", "compositions": [0]}]})
+
+
+def plume_world(**over):
+    f = dict(PLUME)
+    f.update(over)
+    return json.dumps({"version": "1.1", "features": [f]})
+
+
+def oracle_depth_method(work):
     """every schema-valid depth method either builds a world or throws; it never leaves the world with an undefined method"""
     import oracle
     for opt in ['starting point', 'begin segment', 'begin at end segment', 'continuous']:
@@ -40,5 +73,38 @@ def native_oracle(witness, work, search_seed=None):
     return dict(status='holds', detail='three supported depth methods build, "continuous" is rejected by an exception')
 
 
+def oracle_plume_lists(work):
+    """a plume whose per-cross-section lists do not have one entry per coordinate is refused by an exception"""
+    import oracle
+    q = oracle.Q(plume_world(), work, name='plume_ok')
+    try:
+        if q.construct_error:
+            return dict(status='error', detail='consistent plume rejected: %s' % q.construct_error)
+    finally:
+        q.close()
+    for key in ['cross section depths', 'semi-major axis', 'eccentricity', 'rotation angles']:
+        for short in ([PLUME[key][0]], PLUME[key][:2], PLUME[key] + [PLUME[key][-1] * 1.5]):
+            q = oracle.Q(plume_world(**{key: short}), work, name='plume_bad')
+            try:
+                if not q.construct_error:
+                    return dict(status='violated', input={'feature': dict(PLUME, **{key: short})},
+                                detail='plume with 3 coordinates and %d entries in "%s" is accepted without an exception (Plume::properties indexes this list by cross section: out-of-bounds read)' % (len(short), key))
+            finally:
+                q.close()
+    return dict(status='holds', detail='plumes with 1, 2 or 4 entries in any per-cross-section list (3 coordinates) are rejected by an exception')
+
+
+def native_oracle(witness, work, search_seed=None):
+    subs = dict(spherical_parse=oracle_depth_method, plume_parse=oracle_plume_lists)
+    order = [witness['unit']] if witness.get('unit') in subs else list(subs)
+    details = []
+    for u in order:
+        r = subs[u](work)
+        if r['status'] != 'holds':
+            return r
+        details.append(r['detail'])
+    return dict(status='holds', detail='; '.join(details))
+
+
 def witness_from_trace(unit, failure, seed):
-    return {}
+    return dict(unit=unit['name'])
